@@ -35,6 +35,7 @@ Step(a) ==
     \/ a.op = "Evict" /\ Evict(a.c)
     \/ a.op = "Corrupt" /\ Corrupt(a.c)
     \/ a.op = "Arrive" /\ Arrive(a.c)
+    \/ a.op = "Replace" /\ Replace(a.k, a.c)
     \/ a.op = "End" /\ (End \/ Crash \/ EndDoomed \/ \E k \in AllKeys : PromptDel(k) \/ PromptNew(k)) /\ res' = ResOf(a.res)
 Match == Have /\ Step(Ev.act) /\ ws' = WsOf(Ev.ws) /\ cache' = CacheOf(Ev.cache) /\ l' = l + 1 /\ UNCHANGED tid
 Say(tag, prop, clause) == PrintT(<<tag, prop, clause, tid, l, dev'>>)
